@@ -39,7 +39,7 @@ RULE = ("scenario = (entry point, payload size, fileMode, initial archive state)
         "protocol operation beyond the exists-check was executed.")
 ASSUMPTIONS = [
     "POSIX: link()/rename()/unlink()/open(O_EXCL) are atomic; a killed process leaves the file system as its last completed system call left it",
-    "os.makedirs(exist_ok=True) is modelled as one operation (directories are never removed by the protocol)",
+    "os.makedirs(exist_ok=True) is modelled as one operation (directories are never removed by the protocol); its failure = makedirs raises (an mkdir error is swallowed by makedirs when the directory exists meanwhile)",
     "tempfile.NamedTemporaryFile creates a fresh name (O_EXCL) in the given directory; its internal fstat/ioctl/lseek calls are not modelled (fault injection there is covered by the oracle only)",
     "io.BufferedWriter.close() = write what is buffered, then close(2); the buffered rest is written with one write(2)",
     "content is a sequence of abstract chunks (one per write call); gzip/tar validity of the bytes is C08's",
@@ -1131,13 +1131,16 @@ def plan_sched(ctx):
             i = r.randrange(k)
             kd = procs[i]["kind"]
             if kd == "package":
+                # (no mkdir errors here: os.makedirs swallows them when another process has created the directory
+                # in the meantime, so "makedirs raises" is not determined by the injection alone; the single process
+                # scenarios inject them)
                 spec["eio"] = {str(i): r.choice([["write", r.randrange(1, 5)], ["link", 1], ["unlink", 1], ["chmod", 1],
-                                                ["mkdir", r.randrange(1, 4)]])}
+                                                ["write", r.randrange(1, 4)]])}
             elif kd == "mirror":
                 # (tarfile swallows chmod errors on extracted files: not injected here)
-                spec["eio"] = {str(i): r.choice([["write", r.randrange(1, 7)], ["link", 1], ["mkdir", r.randrange(1, 5)]])}
+                spec["eio"] = {str(i): r.choice([["write", r.randrange(1, 7)], ["link", 1], ["write", r.randrange(1, 5)]])}
             elif kd in ("buildid", "fprnt"):
-                spec["eio"] = {str(i): r.choice([["write", 1], ["rename", 1], ["chmod", 1], ["mkdir", r.randrange(1, 4)]])}
+                spec["eio"] = {str(i): r.choice([["write", 1], ["rename", 1], ["chmod", 1], ["write", r.randrange(1, 4)]])}
         specs.append(spec)
     return _dev_limit(specs)
 
